@@ -441,6 +441,13 @@ Section Ops.
   (* int64(dir.Length) *)
   Definition int64_of (n : N) : Z := if n <? 9223372036854775808 then Z.of_N n else (Z.of_N n - 18446744073709551616)%Z.
 
+  (* WStat's rename: rel as the code computes it, then fs.fullPath(rel) *)
+  Definition rename_target (p : P) (name : bstr) : option (P * bstr) :=
+    match ua_rename A p name with
+    | None => None
+    | Some rel => match ua_fullpath A rel with None => None | Some hp => Some (rel, hp) end
+    end.
+
   (* FileRef.WStat: chmod -> chown (after the two lookups) -> rename -> truncate,
      stopping at the first failure; the new path takes effect only after a successful rename *)
   Definition ent_wstat (s : ust) (e : fref) (name : bstr) (mode len : N) (uid gid : bstr) : ust * fref * bool :=
@@ -464,17 +471,13 @@ Section Ops.
     if negb ok2 then (s2, e, false) else
     let '(s3, e3, ok3) :=
       if is_empty name then (s2, e, true)
-      else match ua_rename A (fr_path e) name with
+      else match rename_target (fr_path e) name with
            | None => (s2, e, false)
-           | Some rel =>
-               match ua_fullpath A rel with
-               | None => (s2, e, false)
-               | Some newhp =>
-                   let '(s', r) := call s2 (HRename hp newhp) in
-                   match r with
-                   | RDone => (s', {| fr_path := rel; fr_info := fr_info e; fr_fd := fr_fd e |}, true)
-                   | _ => (s', e, false)
-                   end
+           | Some (rel, newhp) =>
+               let '(s', r) := call s2 (HRename hp newhp) in
+               match r with
+               | RDone => (s', {| fr_path := rel; fr_info := fr_info e; fr_fd := fr_fd e |}, true)
+               | _ => (s', e, false)
                end
            end in
     if negb ok3 then (s3, e3, false) else
